@@ -134,6 +134,27 @@ def readChallenge (i : NtlmIn) (request : Bytes) : Outcome Bytes :=
           let mic := hmacMd5 i.exportedKey (i.negotiate ++ request ++ tmp)
           .ok (hb ++ mic ++ payloadOut)
 
+/-- what `read_challenge_message` takes from the CHALLENGE -/
+structure ChalView where
+  sc : Bytes
+  flags : Nat
+  targetInfo : Bytes
+  timestamp : Bytes
+
+/-- the response half of `read_challenge_message` -/
+def respond (i : NtlmIn) (request : Bytes) (v : ChalView) : Outcome Bytes :=
+  let (nt, lm, sessionBaseKey) := computeResponseV2 i.key v.sc i.clientChallenge v.timestamp v.targetInfo
+  (rc4k sessionBaseKey i.exportedKey).bind fun ek =>
+    let unicode := v.flags &&& 1 = 1
+    let domain := if unicode then i.domainU16 else i.domainRaw
+    let user := if unicode then i.userU16 else i.userRaw
+    let header := authenticateMsg lm nt domain user [] ek v.flags
+    let payloadOut := lm ++ nt ++ domain ++ user ++ [] ++ ek
+    (toVec header).bind fun hb =>
+      let tmp := hb ++ zeros 16 ++ payloadOut
+      let mic := hmacMd5 i.exportedKey (i.negotiate ++ request ++ tmp)
+      .ok (hb ++ mic ++ payloadOut)
+
 /-- `sign_key` / `seal_key` -/
 def magic (s : String) : Bytes := s.toUTF8.toList ++ [0]
 def signKey (k : Bytes) (client : Bool) : Bytes :=
